@@ -860,6 +860,8 @@ func runC02(c *Ctx) {
 		c.Note("violation:" + x.v.key)
 	}
 	c02Correspondence(c, cases, outs)
+	c02SymSuite(c)
+	c02TerminationSweep(c, wd)
 }
 
 type c02Witness struct {
